@@ -10,7 +10,6 @@ variants = [
   {name = "insert_small", defines = ["H_INSERT", "SMALL"], bounded = "insert over every well-formed state with n <= 9 cells, m <= 3 rows (arrays of fixed size)"},
   {name = "insert", defines = ["H_INSERT"], tier = "thorough", timeout = 3000},
   {name = "swap_small", defines = ["H_SWAP", "SMALL"], bounded = "swap over every well-formed state with n <= 9 cells, m <= 3 rows (arrays of fixed size; 9 = the cells swap and the ghost cell can touch)"},
-  {name = "swap", defines = ["H_SWAP"], tier = "thorough", timeout = 3000, memory_gb = 24},
 ]
 assumptions = ["direct mode: the contract is stated as assume(requires) / assert(ensures) around a plain call, callees inlined; the frame is stated per array through a ghost index instead of an assigns clause (DFCC instrumentation of these multi-write bodies exceeds memory)",
                "chain lemma (paper), see c02_dp_place"]
